@@ -112,45 +112,67 @@ def run_wide(ctx):
 
 
 def run_long_formula(ctx):
-    """a focused formula with hundreds of operands (well below Excel's 8192
-    characters): extraction copies cells, it must not depend on how deep the
-    formula's syntax tree is"""
+    """a formula with hundreds of operands (well below Excel's 8192
+    characters), in focus or reached through a cell reference or through a
+    range that brings in several formula cells at once: extraction copies
+    cells, it must not depend on how deep a formula's syntax tree is"""
     from xlcalculator import Evaluator, ModelCompiler
     for n_terms in (150, 300, 600):
-        cells = {f'Sheet1!A{i}': i for i in range(1, n_terms + 1)}
-        cells['Sheet1!B1'] = '=' + '+'.join(f'A{i}'
-                                            for i in range(1, n_terms + 1))
-        cells['Sheet1!B2'] = '=B1*2'
-        ctx.event('extractions')
-        ctx.event('long_formula_extractions')
-        ctx.case(('long-formula', n_terms))
-        try:
-            original = subject.compile_dict(cells)
-            extracted = ModelCompiler.extract(original, ['Sheet1!B2'])
-            ev_o, ev_x = Evaluator(original), Evaluator(extracted)
-            for step in range(2):
-                if step:
-                    ev_o.set_cell_value('Sheet1!A7', 1007)
-                    ev_x.set_cell_value('Sheet1!A7', 1007)
-                want = ('value', ('num', float(
-                    n_terms * (n_terms + 1) + (2000 if step else 0))))
-                go = subject.outcome_of(lambda: ev_o.evaluate('Sheet1!B2'))
-                gx = subject.outcome_of(lambda: ev_x.evaluate('Sheet1!B2'))
-                ctx.event('focus_evaluations')
-                if gx != go or go != want:
-                    ctx.fail(f'focus Sheet1!B2 over a formula of {n_terms} '
-                             f'operands: extracted -> {str(gx)[:160]}, '
-                             f'original -> {str(go)[:160]}, reference '
-                             f'{want[1]}', {'operands': n_terms,
-                                            'extracted': str(gx)[:300],
-                                            'original': str(go)[:300]},
-                             monitor='same-values', group='long-formula')
-                    break
-        except RecursionError as e:
-            ctx.fail(f'extract of a model holding a formula of {n_terms} '
-                     f'operands raised RecursionError',
-                     {'operands': n_terms, 'error': str(e)[:100]},
-                     monitor='extract-raises', group='long-formula-raises')
+        for reach in ('cell', 'focus', 'range', 'range-other-sheet'):
+            long_ = '=' + '+'.join(f'Items!A{i}'
+                                   for i in range(1, n_terms + 1))
+            cells = {f'Items!A{i}': i for i in range(1, n_terms + 1)}
+            total = n_terms * (n_terms + 1) // 2
+            if reach == 'cell':
+                cells['Sheet1!B1'] = long_
+                cells['Sheet1!B2'] = '=B1*2'
+                focus, want0, per_unit = 'Sheet1!B2', 2 * total, 2
+            elif reach == 'focus':
+                cells['Sheet1!B1'] = long_
+                focus, want0, per_unit = 'Sheet1!B1', total, 1
+            else:
+                sh_ = 'Sheet1' if reach == 'range' else 'Ledger'
+                cells[f'{sh_}!B1'] = long_
+                cells[f'{sh_}!B2'] = '=Items!A1*2'
+                cells[f'{sh_}!B3'] = long_.replace('+', '-', 1)
+                cells['Sheet1!C1'] = f'=SUM({sh_}!B1:B3)'
+                focus, per_unit = 'Sheet1!C1', 2
+                want0 = total + 2 + (total - 4)
+            ctx.event('extractions')
+            ctx.event('long_formula_extractions')
+            ctx.case(('long-formula', n_terms, reach))
+            try:
+                original = subject.compile_dict(cells)
+                extracted = ModelCompiler.extract(original, [focus])
+                ev_o, ev_x = Evaluator(original), Evaluator(extracted)
+                for step in range(2):
+                    if step:
+                        ev_o.set_cell_value('Items!A7', 1007)
+                        ev_x.set_cell_value('Items!A7', 1007)
+                    want = ('value', ('num', float(
+                        want0 + (1000 * per_unit if step else 0))))
+                    go = subject.outcome_of(lambda: ev_o.evaluate(focus))
+                    gx = subject.outcome_of(lambda: ev_x.evaluate(focus))
+                    ctx.event('focus_evaluations')
+                    if gx != go or go != want:
+                        ctx.fail(f'focus {focus} ({reach}) over a formula of '
+                                 f'{n_terms} operands: extracted -> '
+                                 f'{str(gx)[:160]}, original -> '
+                                 f'{str(go)[:160]}, reference {want[1]}',
+                                 {'operands': n_terms, 'reached_through':
+                                  reach, 'extracted': str(gx)[:300],
+                                  'original': str(go)[:300]},
+                                 monitor='same-values',
+                                 group='long-formula:' + reach)
+                        break
+            except RecursionError as e:
+                ctx.fail(f'extract of a model holding a formula of {n_terms} '
+                         f'operands (reached through: {reach}) raised '
+                         f'RecursionError',
+                         {'operands': n_terms, 'reached_through': reach,
+                          'error': str(e)[:100]},
+                         monitor='extract-raises',
+                         group='long-formula-raises:' + reach)
 
 
 def run_sparse(ctx):
